@@ -147,6 +147,7 @@ struct Built {
 	long long cut = -1; // -1 none, -2 sweep, >= 0 offset
 	bool frag = false;  // fragmented delivery of the complete stream
 	int frag_pause_us = 1000;
+	unsigned sigmask = 0; // bit i: a signal hits the serving thread after burst i
 	std::vector<long long> frag_at; // piece boundaries (taken modulo the stream length)
 	std::string rawstream;
 	bool any_raw = false;
@@ -171,6 +172,8 @@ static void build(const vf::Case& c, Built& b)
 			for (size_t i = 1; i < op.a.size() && i <= 5; i++)
 				b.frag_at.push_back(op.a[i]);
 		}
+		else if (op.name == "sig")
+			b.sigmask = (unsigned)(op.i(0) & 31);
 		else if (op.name == "raw") {
 			b.rawstream += op.str(0);
 			b.any_raw = true;
@@ -392,6 +395,7 @@ static void check_fidelity_at(const Built& b, size_t c, int closemode, const std
 	std::string st = b.stream.substr(0, c);
 	c09::Result r;
 	std::string what;
+	bool signalled = false;
 	if (frag) {
 		std::vector<std::string> pieces;
 		size_t prev = 0;
@@ -402,8 +406,15 @@ static void check_fidelity_at(const Built& b, size_t c, int closemode, const std
 			what += " " + std::to_string(at);
 		}
 		pieces.push_back(st.substr(prev));
-		r = c09::run_stream_pieces(pieces, o, b.frag_pause_us);
+		r = c09::run_stream_pieces(pieces, o, b.frag_pause_us, b.sigmask);
 		what += " of " + std::to_string(st.size()) + "; " + std::to_string(r.bursts_separate) + " burst(s) consumed before the next was sent";
+		if (r.signals) {
+			// a handled signal may make the library give the connection up (it treats the interrupted wait as an error):
+			// requests may then be missing from some point on, but whatever is handed over is exactly what was sent
+			signalled = true;
+			what += "; " + std::to_string(r.signals) + " signal(s) delivered to the serving thread between bursts (mask " + std::to_string(b.sigmask) + ")";
+			vf::stats().cls("fragments.run.signals_delivered", (uint64_t)r.signals);
+		}
 		vf::stats().cls("fragments.run.bursts_sent", (uint64_t)r.bursts);
 		vf::stats().cls("fragments.run.bursts_consumed_before_next", (uint64_t)r.bursts_separate);
 	}
@@ -423,8 +434,10 @@ static void check_fidelity_at(const Built& b, size_t c, int closemode, const std
 	         more ? " (+1 partially)" : "", full < k ? " and the connection had to close after request #" + std::to_string(full - 1) : std::string());
 	for (size_t i = 0; i < r.seen.size() && i < full; i++)
 		match(r.seen[i], b.reqs[i], i, false, what);
-	if (closemode == 0)
+	if (closemode == 0 && !signalled)
 		VF_CHECK(r.seen.size() >= full, what, ": ", full, " well-formed request(s) were delivered completely but the application was handed only ", r.seen.size());
+	if (signalled)
+		vf::stats().cls(r.seen.size() >= full ? "fragments.run.signalled.all_requests_handed_over" : "fragments.run.signalled.connection_given_up");
 	if (r.seen.size() == full + 1) {
 		VF_CHECK(c >= b.wires[k].head_end, what, ": request #", k, " was handed to the application although the stream ended inside its head (head ends at byte ",
 		         b.wires[k].head_end, ")");
@@ -793,6 +806,12 @@ static vf::Case make_fragments(uint64_t seed, int nreq, int ncuts, int maxh, int
 		f.a.push_back((long long)at);
 	}
 	c.ops.push_back(f);
+	if (r.below(3) == 0) { // a signal reaches the serving thread in some of the gaps
+		unsigned mask = r.below(31) + 1;
+		if (r.below(2))
+			mask = 1u << r.below((unsigned)(ncuts > 0 ? ncuts : 1));
+		c.ops.push_back(vf::Op("sig", {(long long)mask}));
+	}
 	return c;
 }
 
@@ -810,9 +829,21 @@ static void classify_fragments(const vf::Case& c)
 		if (q.query.size() == 3 || q.query.size() == 6 || q.query.size() == 12 || q.query.size() == 24)
 			st.cls("fragments.query_params=" + std::to_string(q.query.size()));
 	bool tail = false;
+	if (b.sigmask)
+		st.cls("fragments.with_signal");
 	for (size_t i = 0; i < at.size(); i++) {
 		size_t x = at[i], next = i + 1 < at.size() ? at[i + 1] : b.stream.size();
 		bool boundary = false, head = false;
+		if ((b.sigmask >> i) & 1)
+			for (size_t k = 0; k < b.wires.size(); k++) {
+				const refhttp::Wire& w = b.wires[k];
+				if (x > w.head_end && x < w.end)
+					st.cls(b.reqs[k].body_kind == 1 ? "fragments.signal.inside_content_length_body" : "fragments.signal.inside_chunked_body");
+				else if (x > w.start && x <= w.head_end)
+					st.cls("fragments.signal.inside_head");
+				else if (x == w.end)
+					st.cls("fragments.signal.between_requests");
+			}
 		for (size_t k = 0; k < b.wires.size(); k++) {
 			const refhttp::Wire& w = b.wires[k];
 			if (x == w.end || x == w.start)
